@@ -547,7 +547,7 @@ func c14Configs(tier string) []*handCfg {
 
 func c15Configs(tier string) []*handCfg {
 	var out []*handCfg
-	ats := []int{0, 1, 10, 30}
+	ats := []int{0, 1, 10, 30, 75}
 	for i, hc := range c10Configs(tier) {
 		for _, at := range ats {
 			if tier == "quick" && len(hc.ids) >= 3 && at != 10 {
